@@ -374,6 +374,18 @@ SELFTEST = [
     dict(id='fixed-rules-guard-removed', file='tools/tzdb/transformer.py', regex=True,
          find=r"                    delta_code = div_to_zero\(\n                        rules_delta_seconds_truncated, 900\) \+ 4\n                    if delta_code < 0 or delta_code > 15:",
          replace="                    delta_code = 4\\n                    if delta_code < 0 or delta_code > 15:", rule='R4', construct='_create_zones_with_rules_expansion'),
+    dict(id='decoder-time-commuted-silent', file='src/ace_time/internal/Brokers.h', find='return code * (uint16_t) 15 + (modifier & 0x0f);',
+         replace='return (modifier & 0x0f) + (uint16_t) 15 * code;', expect='silent'),
+    dict(id='decoder-delta-commuted-silent', file='src/ace_time/internal/Brokers.h',
+         find='return ((int8_t)((uint8_t)deltaCode & 0x0f) - 4) * 15;', replace='return 15 * ((int8_t)((uint8_t)deltaCode & 0x0f) - 4);', expect='silent'),
+    dict(id='decoder-offset-shift-then-mask-silent', file='src/ace_time/internal/Brokers.h',
+         find='return (offsetCode * 15) + (((uint8_t)deltaCode & 0xf0) >> 4);', replace='return (offsetCode * 15) + ((((uint8_t)deltaCode) >> 4) & 0x0f);', expect='silent'),
+    dict(id='save-guard-operands-reversed-silent', file='tools/tzdb/transformer.py', regex=True, find=r'\n {16}if delta_code < 0 or delta_code > 15:',
+         replace=r'\n                if delta_code > 15 or 0 > delta_code:', expect='silent'),
+    dict(id='save-guard-as-chained-range-silent', file='tools/tzdb/transformer.py', regex=True, find=r'\n {16}if delta_code < 0 or delta_code > 15:',
+         replace=r'\n                if not (0 <= delta_code <= 15):', expect='silent'),
+    dict(id='encoder-delta-code-hoisted-silent', file='tools/zonedb/argenerator.py', find='return f"({seconds // 900} + 4)"',
+         replace='code = seconds // 900\n    return f"({code} + 4)"', expect='silent'),
     dict(id='encoder-renamed-locals-silent', file='tools/zonedb/argenerator.py', regex=True,
          find=r'timeCode = div_to_zero\(seconds, 15 \* 60\)\n    timeMinute = seconds % 900 // 60\n    modifier = _to_modifier\(suffix, scope\)\n    if timeMinute > 0:\n        modifier \+= f\' \+ \{timeMinute\}\'\n    return timeCode, modifier',
          replace="tc = div_to_zero(seconds, 900)\\n    rem = (seconds % (15 * 60)) // 60\\n    m = _to_modifier(suffix, scope)\\n    if rem > 0:\\n        m = m + f' + {rem}'\\n    return tc, m", expect='silent'),
